@@ -54,6 +54,11 @@ def build(desc, seed=0):
         if gen.interpart_clash(s):
             raise gen.Skip('clash')
         return s
+    if t == 'bbbridge':
+        s = gen.backbone_bridge(desc['lig'], which=desc['which'], level=desc['level'], offset=off)
+        if gen.interpart_clash(s):
+            raise gen.Skip('clash')
+        return s
     if t == 'window':
         res = lib.protein_residues(desc['key'], desc['chain'])
         s = gen.S([a.clone() for _, v in res[desc['i']:desc['i'] + desc['k']] for a in v])
